@@ -297,7 +297,7 @@ func TestVerifC03Sign(t *testing.T) {
 	}
 	vRun(t, "C03.sign", func(tier string) int {
 		if tier == "thorough" {
-			return len(cfgs) * 240
+			return len(cfgs) * 800
 		}
 		return len(cfgs) * 12
 	}, func(c *vCase) {
